@@ -104,8 +104,45 @@ def mixed_case_names():
     )
 
 
+def dashes_in_literals():
+    """two dashes that are NOT a comment (inside a string literal, an extended identifier, a delimited comment) in front of a real
+    comment on the same line"""
+    return (
+        "library ieee;\nuse ieee.std_logic_1164.all;\n\nentity dashes is\n  port (\n    sel : in std_logic_vector(3 downto 0);\n    q : out std_logic\n  );\nend entity dashes;\n\n"
+        + "architecture rtl of dashes is\n\n  constant c_dc : std_logic_vector(3 downto 0) := \"1--0\"; -- bits 2:1 are don't care\n"
+        + "  constant c_all : std_logic_vector(3 downto 0) := \"----\"; -- nothing matters\n"
+        + "  signal \\a--b\\ : std_logic; -- extended identifier with dashes\n\nbegin\n\n"
+        + "  /* legacy -- kept for reference */ q <= '1' when sel = c_dc else '0'; -- the only statement\n\n"
+        + "  process (sel) is\n  begin\n    report \"---- done ----\"; -- banner\n  end process;\n\nend architecture rtl;\n"
+    )
+
+
+def unindented_tight():
+    """lines that start in column 1 and whose second token follows the first without a space"""
+    return (
+        "library ieee;\nuse ieee.std_logic_1164.all;\n\nentity flat is\nport (\na : in std_logic;\nd : in std_logic;\nq : out std_logic\n);\nend entity flat;\n\n"
+        + "architecture rtl of flat is\nsignal s: std_logic;\nbegin\nq<= s;\nprocess (a, d) is\nvariable v: std_logic;\nbegin-- start\nv:= a;\ns<= v and d;\nend process;\nend architecture rtl;\n"
+    )
+
+
+def if_condition_layouts():
+    """conditions of if / elsif that do not sit on the line of their keyword, with comments in between and behind them"""
+    return (
+        "library ieee;\nuse ieee.std_logic_1164.all;\n\nentity conds is\n  port (\n    a : in std_logic;\n    b : in std_logic;\n    q : out std_logic\n  );\nend entity conds;\n\n"
+        + "architecture rtl of conds is\n\nbegin\n\n  proc_label : process (a, b) is\n  begin\n\n"
+        + "    if a = '1' and   -- a is set\n       b = '0'       -- b is cleared\n    then\n      q <= '1';\n"
+        + "    elsif -- comment behind the keyword\n      (b = '0') then\n      q <= '0';\n"
+        + "    elsif\n      (a = '0' and b = '1')\n    then\n      q <= 'Z';\n"
+        + "    elsif (a = 'Z')   -- already in parentheses\n    then\n      q <= 'X';\n    end if;\n\n"
+        + "  end process proc_label;\n\nend architecture rtl;\n"
+    )
+
+
 def all_designs():
     d = {}
+    d["if_condition_layouts"] = if_condition_layouts()
+    d["dashes_in_literals"] = dashes_in_literals()
+    d["unindented_tight"] = unindented_tight()
     d["mixed_case_names"] = mixed_case_names()
     d["tight_spacing"] = tight_spacing()
     d["case_align"] = case_align()
